@@ -551,27 +551,44 @@ func (s *Server) closeSession(ss *ServerSession) {
 	}
 }
 
-func (s *Server) handleHTTPChannel(req serverHandleHTTPChannelReq) error {
+// registerHTTPReadChannel registers the GET half of a HTTP tunnel.
+// It must be called before the response to the GET request is written,
+// otherwise the POST half can arrive before the GET half is registered.
+func (s *Server) registerHTTPReadChannel(req serverHandleHTTPChannelReq) (chan error, error) {
+	req.res = make(chan error)
+
+	select {
+	case s.chHandleHTTPChannel <- req:
+	case <-s.ctx.Done():
+		return nil, fmt.Errorf("terminated")
+	}
+
+	return req.res, nil
+}
+
+// waitHTTPReadChannel waits for the POST half of a HTTP tunnel.
+func (s *Server) waitHTTPReadChannel(sc *ServerConn, res chan error) error {
+	t := time.NewTimer(5 * time.Second)
+	defer t.Stop()
+
+	select {
+	case <-res:
+	case <-sc.ctx.Done():
+		return fmt.Errorf("terminated")
+	case <-t.C:
+		return fmt.Errorf("did not found a corresponding HTTP POST request")
+	}
+	return errHTTPUpgraded
+}
+
+// handleHTTPWriteChannel pairs the POST half of a HTTP tunnel with its GET half.
+func (s *Server) handleHTTPWriteChannel(req serverHandleHTTPChannelReq) error {
 	req.res = make(chan error)
 
 	select {
 	case s.chHandleHTTPChannel <- req:
 	case <-s.ctx.Done():
 		return fmt.Errorf("terminated")
-	}
-
-	if !req.write {
-		t := time.NewTimer(5 * time.Second)
-		defer t.Stop()
-
-		select {
-		case <-req.res:
-		case <-req.sc.ctx.Done():
-			return fmt.Errorf("terminated")
-		case <-t.C:
-			return fmt.Errorf("did not found a corresponding HTTP POST request")
-		}
-		return errHTTPUpgraded
 	}
 
 	return <-req.res
